@@ -60,17 +60,23 @@ class SearchTerms:
                     break
             safe_term = "{}{}{}".format(delim, self.term, delim)
         else:
-            # Escape every unescaped symbol that has meaning to the parser
-            safe_term = self.term
-            for symbol in (" ", "[", "]", "(", ")", "=", "^", "$", "%", "!",
-                           "<", ">", "~", "'", '"'):
-                escaped_symbol = "\\" + symbol
-                safe_term = escaped_symbol.join(
-                    list(map(
-                        lambda ele: ele.replace(symbol, escaped_symbol)
-                        , safe_term.split(escaped_symbol)
-                    ))
-                )
+            # Escape every unescaped symbol that has meaning to the parser,
+            # in one pass lest an escaped backslash be mistaken for the
+            # escape of the symbol which follows it.
+            symbols = (" ", "[", "]", "(", ")", "=", "^", "$", "%", "!",
+                       "<", ">", "~", "'", '"')
+            safe_term = ""
+            idx = 0
+            while idx < len(self.term):
+                char = self.term[idx]
+                if char == "\\" and idx + 1 < len(self.term):
+                    safe_term += self.term[idx:idx + 2]
+                    idx += 2
+                    continue
+                if char in symbols:
+                    safe_term += "\\"
+                safe_term += char
+                idx += 1
 
         return (
             "["
